@@ -13,7 +13,7 @@ PROP = "C08B"
 PROPS_V = "theories/Props/C08b.v"
 THEOREMS = [
     "C08b_enum_eq_sound", "C08b_enum_neq_sound", "C08b_enum_neq_undeclared_refuted", "C08b_enum_range_op_refuted",
-    "C08b_enum_rows_per_zone_wrap_refuted", "C08b_enum_outside_known",
+    "C08b_enum_rows_per_zone_wrap_refuted", "C08b_enum_build_ok", "C08b_enum_outside_known",
     "C08b_temporal_sound_nonneg", "C08b_temporal_eq_sound_any_magnitude",
     "C08b_temporal_negative_zone_refuted", "C08b_temporal_negative_probe_refuted", "C08b_temporal_neq_refuted",
     "C08b_temporal_u32_wrap_refuted", "C08b_temporal_float_literal_refuted", "C08b_temporal_outside_known",
@@ -387,9 +387,9 @@ def cases(rng, tier):
     out = []
     q = tier == "quick"
     gen_hash(rng.fork("hash"), out, 120 if q else 5000)
-    gen_enum(rng.fork("enum"), out, 1500 if q else 120000)
-    gen_temporal(rng.fork("temp"), out, 2500 if q else 200000)
-    gen_xor(rng.fork("xor"), out, 1500 if q else 120000)
+    gen_enum(rng.fork("enum"), out, 1500 if q else 50000)
+    gen_temporal(rng.fork("temp"), out, 2500 if q else 90000)
+    gen_xor(rng.fork("xor"), out, 1500 if q else 50000)
     return out
 
 
@@ -546,6 +546,8 @@ def classify(c, impl):
             return "EnumNeqUndeclaredLiteral"
         return None
     if st == "temp":
+        if impl in ("PANIC", "ABORT") or c.get("lv") is None:
+            return None
         if op == "neq":
             return "TemporalNeq"
         if c["litkind"] in ("fl", "b", "n"):
@@ -566,6 +568,8 @@ def classify(c, impl):
             return "TemporalBeyondU32"
         return None
     if st == "xor":
+        if impl in ("PANIC", "ABORT") or fields(impl).get("own") != "1" or fields(impl).get("disp") != "ok":
+            return None
         if op != "eq":
             return "XorNonEqOperator"
         return None
